@@ -687,18 +687,26 @@ func c10Sep(r *Rand) string {
 // is insignificant whatever its length; 4096 is the size of the bufio buffers the lexer reads through)
 var c10LongBudget int
 
+// bytes of long comments the rendering under way may still place: a file of a case goes to Coq as ONE string
+// literal, and literals beyond ~30000 characters overflow coqc's stack
+var c10LongBytesLeft int
+
 var c10LongLens = []int{4095, 4096, 4097, 8192, 4095, 4096, 4097, 4094, 4098, 5000, 16000}
 
 // c10LongComment: '#' followed by exactly n bytes of commented-out configuration text
 func c10LongComment(r *Rand) string {
 	n := c10LongLens[r.Intn(len(c10LongLens))]
+	if n > c10LongBytesLeft {
+		n = 4096
+	}
+	c10LongBytesLeft -= n
 	unit := r.Pick([]string{"gzip off ", "commented { out } ", "x", "\"quoted text\" tail ", "redir /old /new 301 # ", "a.example.com, b.example.com, "})
 	return "#" + strings.Repeat(unit, n/len(unit)+1)[:n]
 }
 
 func c10EOL(r *Rand) string {
 	s := ""
-	if c10LongBudget > 0 && r.Chance(20) {
+	if c10LongBudget > 0 && c10LongBytesLeft >= 4100 && r.Chance(20) {
 		// at the end of a line that carries tokens
 		c10LongBudget--
 		s += c10Sep(r) + c10LongComment(r)
@@ -709,7 +717,7 @@ func c10EOL(r *Rand) string {
 		s += "\r"
 	}
 	s += "\n"
-	if c10LongBudget > 0 && r.Chance(15) {
+	if c10LongBudget > 0 && c10LongBytesLeft >= 4100 && r.Chance(15) {
 		// on a line of its own
 		c10LongBudget--
 		s += r.Pick([]string{"", "\t", "  "}) + c10LongComment(r) + r.Pick([]string{"\n", "\n", "\r\n"})
@@ -1230,13 +1238,16 @@ func c10Gen(r *Rand, tier string) []interface{} {
 		blocks := mkBlocks(false)
 		mode := r.Intn(4)
 		budget := r.Range(1, 3)
-		c10LongBudget = budget
+		c10LongBudget, c10LongBytesLeft = budget, 17000
 		main, files := c10Render(blocks, mode, r.Chance(60), r.U64()%1000003)
 		left := c10LongBudget
 		c10LongBudget = 0
 		if left == budget || i < 2 {
 			// none placed by chance (or one of the two fixed forms): one at the end of the first line / on a line of its own in front
 			lr := NewRand(r.U64())
+			if left == budget {
+				c10LongBytesLeft = 17000
+			}
 			if j := strings.Index(main, "\n"); j >= 0 && i%2 == 0 && !strings.Contains(main[:j], "\"") && !strings.Contains(main[:j], "#") && !strings.HasSuffix(main[:j], "\\") && !strings.HasSuffix(main[:j], "\r") {
 				main = main[:j] + " " + c10LongComment(lr) + main[j:]
 			} else {
